@@ -15,6 +15,7 @@ statement about `remoteAddr` covers both directions (`incoming` is universally q
 -/
 import Nebula.Lemmas.FwConn
 import Nebula.Lemmas.FwAddr
+import Nebula.Lemmas.FwReloadNet
 
 namespace Nebula.Props.C17
 open Nebula.Net Nebula.Fw Nebula.Spec.Fw Nebula.Lemmas.Fw
@@ -47,6 +48,35 @@ theorem packet_pass_implies_addrs (my peer : Cert) (pool : Pool) (s : Sys) (hfw 
     remoteOK my peer p.remoteAddr = true ∧ localAddrOK my p.localAddr = true := by
   unfold Sys.packet at hpass
   exact drop_pass_implies_addrs my peer pool s.fw hfw s.ct s.now _ p incoming hpass
+
+/-- **unroutable_local_never_passes.** For every firewall state (any rule tables, any rules version), every
+conntrack content (the tuple tracked or not, stamped with any version), every routine-cache content, time,
+direction, peer and packet: if the packet's local address is not in the routable networks of the firewall *in
+force*, `Drop` refuses it and touches neither conntrack nor the cache — the local-address check precedes the
+conntrack fast path. For the firewall of a node with certificate `my` "not routable" is `localAddrOK my = false`. -/
+theorem unroutable_local_never_passes (fw : Fw) (ct : Conntrack) (now : Nat) (cache : Cache) (p : Packet)
+    (incoming : Bool) (h : HostInfo) (hl : anyContains fw.routable p.localAddr = false) :
+    (drop fw ct now cache p incoming h).1 ≠ .pass ∧ (drop fw ct now cache p incoming h).2 = (ct, cache) :=
+  drop_unroutable fw ct now cache p incoming h hl
+
+/-- the same in the specification's terms, for a firewall built from the node's certificate. -/
+theorem not_own_local_never_passes (my : Cert) (fw : Fw) (hfw : fw.routable = routableOf my) (ct : Conntrack)
+    (now : Nat) (cache : Cache) (p : Packet) (incoming : Bool) (h : HostInfo)
+    (hl : localAddrOK my p.localAddr = false) :
+    (drop fw ct now cache p incoming h).1 ≠ .pass :=
+  (drop_unroutable fw ct now cache p incoming h (by rw [hfw, anyContains_routable]; exact hl)).1
+
+/-- **reload_dropping_network_cuts_flows.** For every system state `s` (any conntrack content — in particular
+flows tracked towards an unsafe network of the old certificate), every new firewall `newFw` installed by
+`reloadFirewall` (conntrack shared) and every later history without a further reload: no packet whose local
+address is outside `newFw`'s routable networks passes, tracked or not, in either direction. -/
+theorem reload_dropping_network_cuts_flows (s : Sys) (newFw : Fw) (post : List Op)
+    (hnr : ∀ op ∈ post, Op.isReload op = false) :
+    ∀ e ∈ ((s.reload newFw).run post).2, anyContains newFw.routable e.pkt.localAddr = false → e.verdict ≠ .pass := by
+  intro e he hl hp
+  have h1 := run_pass_routable (s.reload newFw) post e he hp
+  rw [run_fw_const (s.reload newFw) post hnr e he, reload_routable] at h1
+  rw [hl] at h1; cases h1
 
 /-- The firewall of the node keeps `routableNetworks` through `AddRule`, so the hypothesis `hfw` above holds
 for every firewall built from the node's certificate and any rule list. -/
@@ -116,5 +146,30 @@ example : (drop exFw (Conntrack.new 60 60 60) 0 none (pkt 0x0a000001 0x0a000003)
 example : (drop exFw (Conntrack.new 60 60 60) 0 none (pkt 0x0a000001 0x0b000002) true (peerHost exMy exPeer [])).1 = .peerRejected := by decide
 example : (drop exFw (Conntrack.new 60 60 60) 0 none (pkt 0x0a000005 0x0a000002) true (peerHost exMy exPeer [])).1 = .invalidLocal := by decide
 example : exFw.routable = routableOf exMy := routable_of_built exMy false 60 60 60 [allowAll]
+
+/-! ### the witness of seeded change C19-5: a tracked flow to an unsafe network the re-issued certificate lost -/
+
+def exMyNoUnsafe : Cert := { exMy with unsafeNetworks := [] }
+
+def exPeer1 : Cert :=
+  { name := "h1", networks := [{ addr := { fam := .v4, val := 0x0a000002 }, len := 8 }],
+    unsafeNetworks := [], groups := ["g1"], issuer := "ca1" }
+
+def fwOf (my : Cert) : Fw := (Fw.new my true 60000000000 60000000000 60000000000).addRules [allowAll]
+
+def toUnsafe : Packet := pkt 0xc0a80105 0x0a000002
+
+def verdictsOf (ops : List Op) : List Verdict := (((Sys.new (fwOf exMy) 0).run ops).2.map (·.verdict)).reverse
+
+-- established in both directions; after the reload with the certificate without 192.168/16 both directions are
+-- refused with the local-address error, although the entry is still in conntrack and the rule says local any
+example : verdictsOf [.packet toUnsafe true (peerHost exMy exPeer1 []), .packet toUnsafe false (peerHost exMy exPeer1 []),
+    .reload (fwOf exMyNoUnsafe), .packet toUnsafe true (peerHost exMy exPeer1 []),
+    .packet toUnsafe false (peerHost exMy exPeer1 [])] = [.pass, .pass, .invalidLocal, .invalidLocal] := by decide
+example : anyContains (fwOf exMyNoUnsafe).routable toUnsafe.localAddr = false := by decide
+example : localAddrOK exMyNoUnsafe toUnsafe.localAddr = false := by decide
+example : ((fwOf exMyNoUnsafe).table true).matches toUnsafe true (peerHost exMy exPeer1 []).peer = true := by decide
+example : (aget samePkt ((Sys.new (fwOf exMy) 0).packet toUnsafe true (peerHost exMy exPeer1 [])).2.ct.conns toUnsafe).isSome
+    = true := by decide
 
 end Nebula.Props.C17
